@@ -406,4 +406,29 @@ def Transfer.applyRest (t : Transfer) (vecFine vecCoarse : Array Rat) : Option (
 def Transfer.applyTrunc (t : Transfer) (vecFine vecCoarse : Array Rat) : Option (Array Rat) :=
   t.trunc.applyQ vecFine vecCoarse false
 
+/-! ### `convert` / `clone` of transfer objects (mixed precision / index-type hierarchies) -/
+
+/-- `SparseMatrixCSR::convert(other)` (`Container::assign`): same dimensions and layout arrays, every value converted by
+`cv` (the identity when only the index type changes, as in the runs at `Q`; the rounding to the target type otherwise) -/
+def csrConvert (cv : Rat → Rat) (A : FeatModel.LA.Csr Rat) : FeatModel.LA.Csr Rat :=
+  { rows := A.rows, cols := A.cols, rowPtr := A.rowPtr, colInd := A.colInd, val := A.val.map cv }
+
+/-- `LAFEM::Transfer::convert(other)`: field by field — prolongation from prolongation, restriction from restriction,
+truncation from truncation -/
+def Transfer.convert (cv : Rat → Rat) (t : Transfer) : Transfer :=
+  { prol := csrConvert cv t.prol, rest := csrConvert cv t.rest, trunc := csrConvert cv t.trunc }
+
+/-- the clone modes that copy or share the values (`Layout` / `Allocate` leave the values unspecified) -/
+inductive CloneMode where
+  | shallow | weak | deep
+deriving DecidableEq
+
+/-- `LAFEM::Transfer::clone(mode)`: `Transfer(prol.clone(mode), rest.clone(mode), trunc.clone(mode))` -/
+def Transfer.clone (_ : CloneMode) (t : Transfer) : Transfer :=
+  { prol := t.prol, rest := t.rest, trunc := t.trunc }
+
+/-- what the matrix getters show: rows, columns, stored entries, `Σ_k (k+1)·val[k]` -/
+def csrSig (A : FeatModel.LA.Csr Rat) : Nat × Nat × Nat × Rat :=
+  (A.rows, A.cols, A.val.size, (List.range A.val.size).foldl (fun s k => s + ((k + 1 : Nat) : Rat) * A.val.getD k 0) 0)
+
 end FeatModel.GT
